@@ -610,6 +610,18 @@ func (in *interp) opOr(x, y *Val) *Val {
 	if x.isBool() && y.isBool() {
 		return in.derived(pSub(pAdd(x.p, y.p), in.mul(x.p, y.p)), big0, big1, &origin{op: "orbool", args: []*Val{x, y}})
 	}
+	// (t << n) | r with r < 2^n and no bits shifted out: the operands occupy disjoint bit ranges, OR == sum
+	for _, pr := range [][2]*Val{{x, y}, {y, x}} {
+		sh, r := pr[0], pr[1]
+		if sh.org != nil && sh.org.op == "shl" && !sh.assumed && sh.org.k > 0 && sh.org.k < 64 {
+			if r.lo.Sign() >= 0 && r.hi.Cmp(new(big.Int).Lsh(big1, uint(sh.org.k))) < 0 {
+				hi := new(big.Int).Add(sh.hi, r.hi)
+				if hi.Cmp(bigWm1) <= 0 {
+					return in.derived(pAdd(sh.p, r.p), new(big.Int).Add(sh.lo, r.lo), hi, &origin{op: "ordisjoint", args: []*Val{sh, r}})
+				}
+			}
+		}
+	}
 	v := in.newAtom("or", "", maxBig(x.lo, y.lo), minBig(bigWm1, new(big.Int).Add(x.hi, y.hi)))
 	v.org = &origin{op: "or", args: []*Val{x, y}}
 	return v
